@@ -237,6 +237,8 @@ OK = bool(np.allclose(D @ M, np.eye(len(M)), atol=1e-9)); OBSERVED = f"|D M - I|
         return core.discharged("shadow-execution", queries=2)
     obs.append(Ob("C07.controlled.args", "finite", [G + ":ControlledGate.__post_init__"], ctrl_bad, "a control count below 1 is rejected with ValueError"))
 
+    from vfw import lean
+    obs.append(lean.prelude_ob('C07', 'adjoint twice, adjoint of an integer power / of an exponential, adjoint and power of a block-diagonal matrix'))
     from props import C07struct
     obs.extend(C07struct.build(vprop.enum_ob("x", [], lambda: range(6), _check_native, "").run))
     obs.append(vprop.enum_ob("C07.native.enum", FN, lambda: range(6), _check_native,
